@@ -112,7 +112,7 @@ func (c *histCheck) RunCase(w *core.Worker, idx int, seed uint64, res *core.Case
 		tag := fmt.Sprintf("after step %d [%s]", s, stepString(step))
 		switch c.id {
 		case "C01":
-			run.checkDevice(tag)
+			run.checkDevice(tag, out.rsp)
 			res.Count("device_leaves_checked", len(afterW))
 		case "C02":
 			run.checkIntended(tag)
